@@ -969,9 +969,24 @@ impl TypeEntry {
                     .iter()
                     .enumerate()
                     .fold(BTreeMap::new(), |mut map, (index, variant)| {
+                        // A set is emitted as `Vec<T>`, so a set and a vec of
+                        // the same item are one and the same Rust type.
+                        let canonical = |type_id: &TypeId| match &type_space
+                            .id_to_entry
+                            .get(type_id)
+                            .unwrap()
+                            .details
+                        {
+                            TypeEntryDetails::Vec(item) | TypeEntryDetails::Set(item) => {
+                                (true, item.clone())
+                            }
+                            _ => (false, type_id.clone()),
+                        };
                         let key = match &variant.details {
-                            VariantDetails::Item(type_id) => vec![type_id],
-                            VariantDetails::Tuple(type_ids) => type_ids.iter().collect(),
+                            VariantDetails::Item(type_id) => vec![canonical(type_id)],
+                            VariantDetails::Tuple(type_ids) => {
+                                type_ids.iter().map(canonical).collect()
+                            }
                             _ => return map,
                         };
 
